@@ -222,6 +222,29 @@ def check_solver_sites(ctx, rule="C04-e"):
             callee = ev.data["callee"]
             where = f"{f.file}:{ev.line}"
             if callee in DIRECT_SOLVERS:
+                # a dense / banded direct solver that is told the matrix is symmetric or positive definite reads one
+                # triangle only: the step matrix is symmetric only for a constant diffusivity
+                a_ = ev.data["args"] if isinstance(ev.data["args"], dict) else {}
+                assume = a_.get("assume_a")
+                symflag = a_.get("sym_pos")
+                structured = (assume is not None and not (hasattr(assume, "s") and assume.s in ("gen", "general"))) or (symflag is not None and not (getattr(symflag, "kind", "") == "const" and not symflag.a)) or callee.endswith("solveh_banded")
+                if structured:
+                    try:
+                        rws = rows_of(A, b.length)
+                        up, lo = rws["r"].get(1), rws["r"].get(-1)
+                        rsym = [x for x in nf.symbols(lo or {}) | nf.symbols(up or {}) if x.startswith("@r") or x == "@R"]
+                        sym_ok = up is not None and lo is not None and all(not nf.depends(up, x) and not nf.depends(lo, x) for x in rsym) and nf.equal(up, lo)
+                    except AnalysisError:
+                        sym_ok = False
+                    if sym_ok:
+                        ctx.ok(rule, q + ":linear solve", where, "a symmetric-matrix solver is used where the step matrix is symmetric (constant coefficients: equal, row-independent off-diagonals)", solver=callee)
+                        continue
+                    ctx.bad(
+                        rule, q + ":linear solve", where,
+                        "the step matrix is handed to the solver as a general matrix (its off-diagonals differ when the diffusivity varies in space): no symmetric / positive-definite shortcut",
+                        signature="structure assumed " + (getattr(assume, "s", "") or callee.split(".")[-1]), solver=callee,
+                    )
+                    continue
                 ctx.ok(rule, q + ":linear solve", where, "the step is solved with a direct solver (exact to rounding, cannot fail silently)", solver=callee)
                 continue
             a = ev.data["args"]
